@@ -14,6 +14,7 @@ import (
 	"testing"
 
 	"github.com/cosmos/cosmos-sdk/client"
+	codectypes "github.com/cosmos/cosmos-sdk/codec/types"
 	sdk "github.com/cosmos/cosmos-sdk/types"
 	"github.com/ethereum/go-ethereum/common"
 	ethtypes "github.com/ethereum/go-ethereum/core/types"
@@ -316,6 +317,43 @@ func runC18(st *ev.Stats, c C18Case) string {
 	if d := c18Figures(m2, tx, c, kind, "decoded"); d != nil {
 		return fail(d[0], d[1])
 	}
+	// the sender is what the signature says, not what the envelope's From field claims (that field is not signed), and
+	// not what an earlier use of the same message object recovered
+	if !c.Unprot {
+		other := common.HexToAddress("0x00000000000000000000000000000000000c0ffe")
+		m3 := *m2
+		m3.From = other.Hex()
+		if s, err := m3.GetSender(chainID); err != nil || s != wantSender {
+			return fail("sender:"+kind+":claimed-from", fmt.Sprintf("message whose From field claims %s: GetSender = %s (%v), signature recovers %s", other.Hex(), s, err, wantSender))
+		}
+		if bz3, err := c18ReencodeWithFrom(m2, other.Hex()); err == nil {
+			if d3, err := c18Cfg.TxDecoder()(bz3); err == nil && len(d3.GetMsgs()) == 1 {
+				if m4, ok := d3.GetMsgs()[0].(*evmtypes.MsgEthereumTx); ok {
+					if s, err := m4.GetSender(chainID); err != nil || s != wantSender {
+						return fail("sender:"+kind+":claimed-from", fmt.Sprintf("decoded message whose From field claims %s: GetSender = %s (%v), signature recovers %s", other.Hex(), s, err, wantSender))
+					}
+				}
+			}
+		}
+		// the same message object re-used for a transaction of another key
+		kb2 := bytes.Repeat([]byte{0x22}, 32)
+		if c.Key == hex.EncodeToString(kb2) {
+			kb2[0] = 0x23
+		}
+		priv2, _ := crypto.ToECDSA(kb2)
+		if tx2nd, err := ethtypes.SignNewTx(priv2, signer, inner); err == nil {
+			want2, _ := ethtypes.Sender(signer, tx2nd)
+			m5 := &evmtypes.MsgEthereumTx{}
+			if m5.FromEthereumTx(tx) == nil {
+				_, _ = m5.GetSender(chainID)
+				if m5.FromEthereumTx(tx2nd) == nil {
+					if s, err := m5.GetSender(chainID); err != nil || s != want2 {
+						return fail("sender:"+kind+":reused-message", fmt.Sprintf("message object re-used for a transaction signed by %s: GetSender = %s (%v)", want2, s, err))
+					}
+				}
+			}
+		}
+	}
 	st.Class("round-tripped:" + kind)
 	if c.Type > 0 && (len(c.Access) > 0 || c.To == "") {
 		if len(c.Data) > 2000 {
@@ -424,4 +462,23 @@ func bigStr(b *big.Int) string {
 		return "0"
 	}
 	return b.String()
+}
+
+// c18ReencodeWithFrom puts the message on the wire with a From field of the caller's choosing (plain SetMsgs; BuildTx
+// would blank it).
+func c18ReencodeWithFrom(m *evmtypes.MsgEthereumTx, from string) ([]byte, error) {
+	mm := *m
+	mm.From = from
+	b := c18Cfg.NewTxBuilder()
+	if err := b.SetMsgs(&mm); err != nil {
+		return nil, err
+	}
+	if eb, ok := b.(interface{ SetExtensionOptions(...*codectypes.Any) }); ok {
+		opt, err := codectypes.NewAnyWithValue(&evmtypes.ExtensionOptionsEthereumTx{})
+		if err != nil {
+			return nil, err
+		}
+		eb.SetExtensionOptions(opt)
+	}
+	return c18Cfg.TxEncoder()(b.GetTx())
 }
